@@ -59,7 +59,34 @@ type c11Case struct {
 	// Local: after the junk the LOCAL application creates tubes of its own (a forwarded connection, an authorization
 	// proxy). Every Create call must return - a tube, or an error such as ErrOutOfTubes - within 10 virtual seconds.
 	Local []c11Local `json:"local,omitempty"`
+	// History: an ESTABLISHED TUBE WITH HISTORY is under attack. Before the junk the honest peer opens a second reliable
+	// tube, the local application writes on it and the peer acknowledges (see c11History); the junk then contains runs
+	// of duplicate acknowledgements for this tube. The peer owns the tube and may ruin it; the clauses are the usual
+	// ones (no panic, the control tube keeps working, Stop returns, nothing is left).
+	History *c11History `json:"history,omitempty"`
 }
+
+type c11History struct {
+	Acked int         `json:"acked"` // frames (one Write each) the local application sent on the tube and the peer acknowledged before the junk
+	Out   int         `json:"out"`   // frames sent after that: the peer receives them and withholds its acknowledgements while the junk lasts
+	N     int         `json:"n"`     // bytes per frame
+	Runs  []c11DupRun `json:"runs"`
+}
+
+// c11DupRun is a run of Len acknowledgement frames for the tube with history, all carrying the same acknowledgement
+// number: the last one the local sender genuinely received (Delta 0 - duplicates) or a neighbour of it.
+type c11DupRun struct {
+	At      int  `json:"at"`      // injected before drawn frame number At (after the last one when At >= their number)
+	Len     int  `json:"len"`     // 1..8
+	Delta   int  `json:"delta"`   // -2..2
+	Payload int  `json:"payload"` // 0: pure acknowledgement; else the frames carry data too
+	RTR     bool `json:"rtr"`
+	NoOff   int  `json:"nooff"` // frame number relative to the one the tube expects next
+	GapMs   int  `json:"gap"`   // pause between the frames of the run
+}
+
+// c11HistType is the tube type of the established tube with history; the application reads it and keeps it open.
+const c11HistType = 0xE8
 
 type c11Flood struct {
 	Class  int  `json:"class"`  // 0 unreliable, 1 reliable, 2 both
@@ -222,6 +249,19 @@ func c11Scenario(c c11Case, v *vlib.Verdict) {
 		t Tube
 	}
 	ctlCh := make(chan *Reliable, 1)
+	histCh := make(chan *Reliable, 1)
+	// the peer's acknowledgements (everything it sends) for the tube with history are lost while withhold is set
+	var withhold atomic.Bool
+	var histID atomic.Int32
+	histID.Store(-1)
+	if c.History != nil {
+		p.Net.Decide = func(dir, idx int, pkt []byte, now time.Duration) (memconn.Decision, bool) {
+			if dir == 0 && withhold.Load() && len(pkt) >= 2 && int32(pkt[0]) == histID.Load() && pkt[1]&(1<<RELIdx) != 0 {
+				return memconn.Decision{Drop: true}, true
+			}
+			return memconn.Decision{}, false
+		}
+	}
 	var accMu sync.Mutex // never held across a blocking call
 	var accepted []Tube   // every tube Accept handed out
 	var offeredLate []Tube // ... after the harness had seen the muxer in the stopping state
@@ -248,6 +288,14 @@ func c11Scenario(c c11Case, v *vlib.Verdict) {
 			}
 			if tb.Type() == c11HeldType {
 				continue // accepted, kept, not read (yet): whatever the peer sends stays buffered in the tube
+			}
+			if r, ok := tb.(*Reliable); ok && c.History != nil && tb.Type() == c11HistType {
+				select {
+				case histCh <- r: // the established tube: the application reads it and keeps it open
+					go io.Copy(io.Discard, r)
+					continue
+				default:
+				}
 			}
 			go tb.Close()
 		}
@@ -302,6 +350,36 @@ func c11Scenario(c c11Case, v *vlib.Verdict) {
 	if c.CtlWarm > 0 && !exchange(c.CtlWarm, "before-junk") {
 		return
 	}
+	// the established tube with history: opened by the honest peer, the local application writes Acked frames, the peer
+	// (which reads everything) acknowledges them all; then the peer's acknowledgements are withheld and Out more frames
+	// are written - they stay outstanding while the junk lasts
+	var histM *Reliable
+	if c.History != nil {
+		if histM = c11Establish(c.History, P, histCh, &histID, &withhold, v); histM != nil {
+			v.Label("duplicate-ack-runs-on-established-tube")
+		}
+	}
+	// dupRun injects a run of acknowledgements for the tube with history, numbered relative to the last acknowledgement
+	// number the local sender really received and to the frame number the tube expects next (white box, in place of a
+	// peer-side state machine: a peer knows what it acknowledged last and what it sent)
+	dupRun := func(run c11DupRun) {
+		if histM == nil {
+			return
+		}
+		for i := 0; i < run.Len; i++ {
+			histM.sender.m.Lock()
+			ack := uint32(histM.sender.ackNo)
+			histM.sender.m.Unlock()
+			flags := frameFlags{REL: true, ACK: true, RTR: run.RTR}
+			f := frame{tubeID: histM.id, ackNo: ack + uint32(run.Delta), frameNo: histM.recvWindow.getAck() + uint32(run.NoOff), flags: flags}
+			f.data = vlib.Fill(uint64(run.At)*131+uint64(i), run.Payload)
+			f.dataLength = uint16(len(f.data))
+			p.Net.B.Inject(f.toBytes())
+			if run.GapMs > 0 {
+				time.Sleep(time.Duration(run.GapMs) * time.Millisecond)
+			}
+		}
+	}
 	// the tubes the application does not read: opened and filled up to their bound before the drawn frames
 	for _, u := range c.Unread {
 		for _, f := range c11FillFrames(u) {
@@ -338,6 +416,13 @@ func c11Scenario(c c11Case, v *vlib.Verdict) {
 	}
 	inconsistent := 0
 	for i, f := range c.Frames {
+		if c.History != nil {
+			for _, run := range c.History.Runs {
+				if run.At == i {
+					dupRun(run)
+				}
+			}
+		}
 		if c11TargetsControl(f, ctlID) {
 			f.Tube = int(ctlID) + 2 // keep the junk off the honest tube's own (reliability, id)
 		}
@@ -355,9 +440,17 @@ func c11Scenario(c c11Case, v *vlib.Verdict) {
 			}
 		}
 	}
+	if c.History != nil {
+		for _, run := range c.History.Runs {
+			if run.At >= len(c.Frames) {
+				dupRun(run)
+			}
+		}
+	}
 	if c.Flood != nil && c.Flood.After {
 		flood()
 	}
+	withhold.Store(false) // the peer's acknowledgements get through again
 	time.Sleep(2 * time.Second)
 	if !c11LocalCreates(c, M, v, 10*time.Second) {
 		return
@@ -478,6 +571,62 @@ func c11Scenario(c c11Case, v *vlib.Verdict) {
 	if c.Interleave {
 		v.Label("interleaved-honest-traffic")
 	}
+}
+
+// c11Establish sets up the established tube with history and returns the local end (nil, with a label, if that did not
+// work out - never a verdict).
+func c11Establish(h *c11History, P *Muxer, histCh chan *Reliable, histID *atomic.Int32, withhold *atomic.Bool, v *vlib.Verdict) *Reliable {
+	hP, err := P.CreateReliableTube(TubeType(c11HistType))
+	if err != nil {
+		v.Label("history:tube-not-established")
+		return nil
+	}
+	go func() { io.Copy(io.Discard, hP); hP.Close() }() // the peer's application reads everything; closes when the tube ends
+	var hM *Reliable
+	select {
+	case hM = <-histCh:
+	case <-time.After(30 * time.Second):
+		v.Label("history:tube-not-established")
+		return nil
+	}
+	histID.Store(int32(hM.id))
+	write := func(k int, seed uint64) {
+		for i := 0; i < k; i++ {
+			hM.Write(vlib.Fill(seed+uint64(i), h.N))
+		}
+	}
+	write(h.Acked, 1000)
+	for i := 0; i < 6000 && hM.sender.unAckedFramesRemaining() > 0; i++ {
+		time.Sleep(5 * time.Millisecond)
+	}
+	hM.sender.m.Lock()
+	left, ack := len(hM.sender.frames), hM.sender.ackNo
+	hM.sender.m.Unlock()
+	if left > 0 {
+		v.Label("history:not-everything-acknowledged")
+	}
+	withhold.Store(true)
+	write(h.Out, 2000)
+	time.Sleep(2 * time.Millisecond) // the frames are on their way; their acknowledgements are lost
+	hM.sender.m.Lock()
+	out := len(hM.sender.frames)
+	hM.sender.m.Unlock()
+	v.Label("established-tube-with-history")
+	if ack > 20 {
+		switch {
+		case out == 0:
+			v.Label("history:ack>20:nothing-outstanding")
+		case out < 4:
+			v.Label("history:ack>20:1-3-outstanding")
+		case out < defaultWindowSize:
+			v.Label("history:ack>20:4-9-outstanding")
+		default:
+			v.Label("history:ack>20:full-window-outstanding")
+		}
+	} else {
+		v.Label("history:ack<=20")
+	}
+	return hM
 }
 
 // c11LocalCreates: the local application creates its own tubes. Each call must come back within bound - with a tube
@@ -760,6 +909,31 @@ func c11Gen(t *rapid.T) c11Case {
 		for i := 0; i < nr+nu; i++ {
 			c.Local = append(c.Local, c11Local{Rel: (i%2 == 0 && i/2 < nr) || i/2 >= nu, TType: rapid.IntRange(0, 255).Draw(t, "localtype")})
 		}
+	}
+	// one case in four: an established tube with history is under attack - the honest peer opened it, the local
+	// application sent 5-80 frames on it which the peer acknowledged (mostly more than 20, the point from which duplicate
+	// acknowledgements count), 0-12 more frames are outstanding because the peer withholds its acknowledgements; 1-6 runs
+	// of 1-8 acknowledgement frames repeating the last genuine acknowledgement number (or a neighbour), with and without
+	// payload and RTR, are spread over the drawn frames. The dimension is purely additive: the drawn frames and every other
+	// dimension of the case stay exactly as they are without it (drawn last, nothing is re-aimed).
+	if rapid.IntRange(0, 3).Draw(t, "withHistory") == 0 {
+		h := &c11History{
+			Acked: rapid.SampledFrom([]int{5, 19, 20, 21, 22, 25, 40, 80}).Draw(t, "hacked"),
+			Out:   rapid.SampledFrom([]int{0, 1, 1, 2, 2, 3, 3, 4, 9, 10, 12}).Draw(t, "hout"),
+			N:     rapid.SampledFrom([]int{1, 1, 100, 1200}).Draw(t, "hn"),
+		}
+		h.Runs = rapid.SliceOfN(rapid.Custom(func(t *rapid.T) c11DupRun {
+			return c11DupRun{
+				At:      rapid.IntRange(0, len(c.Frames)).Draw(t, "rat"),
+				Len:     rapid.IntRange(1, 8).Draw(t, "rlen"),
+				Delta:   rapid.SampledFrom([]int{0, 0, 0, 0, 0, -1, 1, -2, 2}).Draw(t, "rdelta"),
+				Payload: rapid.SampledFrom([]int{0, 0, 1, 100}).Draw(t, "rpayload"),
+				RTR:     rapid.IntRange(0, 3).Draw(t, "rrtr") == 0,
+				NoOff:   rapid.SampledFrom([]int{0, 0, 1, 5}).Draw(t, "rnooff"),
+				GapMs:   rapid.SampledFrom([]int{0, 0, 0, 1, 50}).Draw(t, "rgap"),
+			}
+		}), 1, 6).Draw(t, "runs")
+		c.History = h
 	}
 	// process-killing known findings are excluded by construction while they are open
 	if vlib.KnownOpen("panic:tubes.fromBytes:slice-bounds") {
